@@ -107,12 +107,21 @@ def entry_job(text, mode, expect_fail, tag, want_mc=False, enduse=1, namev=0):
             a, b = runner.norm_report(cli_report), runner.norm_report(direct.report)
             mon.check('cli-equals-direct-pipeline', a == b, mechanism='C20/cli-report-differs-from-direct-pipeline', diff=_diff(a, b), **wit)
             # client in-process
-            crep, cerr = _client_report(inp)
+            # every other case: a different input with the same file name in another directory goes through the same client
+            # before the first result's report file is read
+            sibling = (text + '\nPlant Lifetime, 23\nUtilization Factor, 0.77\n') if namev % 2 == 0 else None
+            cinfo = {}
+            crep, cerr = _client_report(inp, sibling, cinfo)
             if crep is None:
                 mon.bad('cli-equals-client', mechanism='C20/client-fails-where-cli-succeeds', error=cerr, **wit)
             else:
                 c = runner.norm_report(crep)
-                mon.check('cli-equals-client', a == c, mechanism='C20/cli-report-differs-from-client', diff=_diff(a, c), **wit)
+                mech = 'C20/cli-report-differs-from-client'
+                if a != c and cinfo.get('same_report_file'):
+                    mech = 'C20/client-report-file-of-one-input-overwritten-by-a-same-named-input-from-another-directory'
+                mon.check('cli-equals-client', a == c, mechanism=mech, diff=_diff(a, c), sibling=sibling is not None, **wit)
+                if sibling is not None:
+                    mon.ok('client-report-file-survives-a-same-named-input')
             if want_mc:
                 outs = MC_OUTPUTS[enduse]
                 st = {'program': 'GEOPHIRES', 'inputs': [], 'outputs': outs, 'iterations': 1, 'failure': 0.0,
@@ -151,13 +160,35 @@ def _diff(a, b):
     return {'len_cli': len(la), 'len_other': len(lb)}
 
 
-def _client_report(path):
+def _client_report(path, sibling_text=None, info=None):
+    """Report file the client hands back for the input at `path`.  With `sibling_text`, a second, different input with the SAME
+    file name in another directory is run through the client afterwards, and the first result's report file is read only
+    then: it must still be the report of its own input."""
     from pathlib import Path
     from geophires_x_client import GeophiresInputParameters, GeophiresXClient
     logging.disable(logging.CRITICAL)
     try:
         with contextlib.redirect_stdout(io.StringIO()), contextlib.redirect_stderr(io.StringIO()):
-            r = GeophiresXClient(enable_caching=False).get_geophires_result(GeophiresInputParameters(from_file_path=Path(path)))
+            client = GeophiresXClient(enable_caching=False)
+            r = client.get_geophires_result(GeophiresInputParameters(from_file_path=Path(path)))
+            if sibling_text is not None:
+                sib_dir = os.path.join(os.path.dirname(os.path.dirname(path)), 'other-project')
+                os.makedirs(sib_dir, exist_ok=True)
+                sib = os.path.join(sib_dir, os.path.basename(path))
+                with open(sib, 'w', encoding='utf-8') as f:
+                    f.write(sibling_text)
+                sp = GeophiresInputParameters(from_file_path=Path(sib))
+                try:
+                    client.get_geophires_result(sp)
+                except Exception:  # noqa  (whether the sibling itself simulates is beside the point)
+                    pass
+                out2 = str(sp.get_output_file_path())
+                if info is not None:
+                    info['same_report_file'] = out2 == str(r.output_file_path)
+                if out2 != str(r.output_file_path):
+                    for q in (out2, out2[:-4] + '.json'):
+                        with contextlib.suppress(OSError):
+                            os.remove(q)
         with open(r.output_file_path, encoding='utf-8') as f:
             rep = f.read()
         for q in (r.output_file_path, str(r.output_file_path)[:-4] + '.json'):
